@@ -47,3 +47,90 @@ Example C18_ex_clean_run :
   exists s, run (step c18_cfg) (init c18_cfg) c18_sched = Some s /\ census s = 0
             /\ census (init c18_cfg) = 7.
 Proof. eexists. split; [vm_compute; reflexivity|]. split; vm_compute; reflexivity. Qed.
+
+(* ====================================================================================== *)
+(* C18, HTTP cluster leg (runnables/httpcluster).  Models: ClusterLTS.v (the Run loop, C16) and
+   ClusterGo.v (the goroutine census on top of it: [g_run] = server instances whose
+   createAndStartServer goroutine is alive; [helpers] = stopServers goroutines; [main_alive] = the
+   goroutine inside Run).  A schedule is any list of labels: any sequence of config maps over any
+   ids (restarts of the same id included), factory errors, servers that never become ready or
+   report Error, slow Stop()s, Stop()/cancel/close(siphon) at any point, servers' Run returning at
+   any time after it was called.  [settledb g]: no server goroutine of [g_run] is still owed by the
+   environment (Stop() has not returned for it and the parent context is live) or has yet to call
+   Run - the states in which the harness compares the census with the real goroutine dump.
+   Statements only. *)
+From GS Require Import Cluster ClusterLTS ClusterMain ClusterGo ClusterCensus.
+Open Scope nat_scope.
+
+(* (i) After Run() has returned - whatever the history - no goroutine of the cluster is left once
+   the servers have honoured their contract. *)
+Theorem C18_cluster_clean : forall d g,
+  reachable (gstep true) (ginit d) g -> ClusterLTS.s_pc (g_s g) = PRet -> settledb g = true ->
+  ClusterGo.census g = 0.
+Proof. exact cluster_census_clean. Qed.
+
+(* (ii) While running, at every settled point: 1 (Run) + one goroutine per server started and not
+   yet stopped + one helper per pending Stop(), and there are never more helpers than such servers.
+   Nothing in the bound depends on the number of config updates, restarts or failed starts so far. *)
+Theorem C18_cluster_bounded : forall d g,
+  reachable (gstep true) (ginit d) g -> settledb g = true ->
+  ClusterGo.census g <= 1 + started_not_stopped (g_s g) + helpers (g_s g) /\
+  helpers (g_s g) <= started_not_stopped (g_s g).
+Proof. exact cluster_census_bounded. Qed.
+
+(* ... with the loop idle: at most 1 + GetServerCount() goroutines. *)
+Theorem C18_cluster_bounded_idle : forall d g,
+  reachable (gstep true) (ginit d) g -> settledb g = true -> ClusterLTS.s_pc (g_s g) = PIdle ->
+  ClusterGo.census g <= 1 + count (s_entries (g_s g)).
+Proof. exact cluster_census_idle. Qed.
+
+(* (iii) In EVERY reachable state, settled or not, the only goroutines beyond that bound are server
+   goroutines whose Stop() has already returned ([zombies]: the Runnable contract obliges them to
+   end) ... *)
+Theorem C18_cluster_bounded_all_states : forall d g,
+  reachable (gstep true) (ginit d) g ->
+  ClusterGo.census g <= 1 + 2 * started_not_stopped (g_s g) + length (zombies g).
+Proof. exact cluster_census_all_states. Qed.
+
+(* ... and the cluster never blocks one of them: a server goroutine can always take its next step
+   (call Run if it has not yet, otherwise return and end). *)
+Theorem C18_cluster_server_goroutine_can_end : forall fx g i,
+  In i (g_run g) ->
+  if memN i (s_unrun (g_s g))
+  then exists s', ClusterLTS.step fx (g_s g) (ClusterLTS.LRunCall i) = Some s'
+  else exists g', gstep fx g (GRunRet i) = Some g' /\ g_run g' = removeN i (g_run g).
+Proof. exact cluster_owed_can_end. Qed.
+
+(* The census observation of the harness is accepted by the model only in a settled state and only
+   with the model's own numbers (so an accepted trace's goroutine dumps are the model's census),
+   and a census schedule is a schedule of the C16 protocol model (all C16 theorems apply). *)
+Theorem C18_cluster_observation_sound : forall fx g m h r g',
+  gstep fx g (GCensus m h r) = Some g' ->
+  g' = g /\ settledb g = true /\ N.to_nat m + N.to_nat h + N.to_nat r = ClusterGo.census g.
+Proof. exact gcensus_label_sound. Qed.
+
+Theorem C18_cluster_schedules_project : forall fx ls g g',
+  run (gstep fx) g ls = Some g' -> run (ClusterLTS.step fx) (g_s g) (erase ls) = Some (g_s g').
+Proof. exact grun_erase. Qed.
+
+Print Assumptions C18_cluster_clean.
+Print Assumptions C18_cluster_bounded.
+Print Assumptions C18_cluster_bounded_idle.
+Print Assumptions C18_cluster_bounded_all_states.
+Print Assumptions C18_cluster_server_goroutine_can_end.
+Print Assumptions C18_cluster_observation_sound.
+Print Assumptions C18_cluster_schedules_project.
+
+(* non-vacuity: three rounds on the same id (start; restart with a never-ready replacement next to a
+   factory error; start again), census observed in between, cancel, shutdown: Run returned, settled,
+   census 0.  And the bound of (ii) is attained: two servers both inside slow Stop()s. *)
+Example C18_ex_cluster_clean_run :
+  exists g, run (gstep true) (ginit false) census_schedule = Some g /\
+            ClusterLTS.s_pc (g_s g) = PRet /\ settledb g = true /\ ClusterGo.census g = 0 /\
+            s_next (g_s g) = 3%N.
+Proof. exact census_schedule_runs. Qed.
+Example C18_ex_cluster_peak :
+  exists g, run (gstep true) (ginit false) census_schedule_peak = Some g /\
+            settledb g = true /\ ClusterGo.census g = 5 /\ started_not_stopped (g_s g) = 2 /\
+            helpers (g_s g) = 2.
+Proof. exact census_schedule_peak_runs. Qed.
